@@ -106,7 +106,7 @@ Definition node_entry (deref : bool) (r : rel) (t : tree) : (rel * ekind * bool)
         | LTarget (TOther ft) => ((r, EOther ft, false), None)
         | LTarget (TLink _ _) => ((r, EBroken 4, false), None)
         end
-      else ((r, ELink text, tree_is_dir t), None)
+      else ((r, ELink text, tree_is_dir deref t), None)
   end.
 
 Lemma entries_eq deref r t :
@@ -121,19 +121,19 @@ Qed.
 
 Lemma sel_entries_eq keep deref r t :
   sel_entries keep deref r t =
-  if negb (keep r (tree_is_dir t)) then [] else
+  if negb (keep r (tree_is_dir deref t)) then [] else
   fst (node_entry deref r t) :: match snd (node_entry deref r t) with Some cs => schildren keep deref r cs | None => [] end.
 Proof.
   destruct t as [len|cs|text res|ft|ft]; cbn [sel_entries node_entry fst snd]; try reflexivity.
   - now rewrite schildren_fix.
-  - destruct (negb (keep r (tree_is_dir (TLink text res)))); [reflexivity|].
+  - destruct (negb (keep r (tree_is_dir deref (TLink text res)))); [reflexivity|].
     destruct deref; [|reflexivity].
     destruct res as [| |[len|cs|text' res'|ft|ft]]; cbn [fst snd]; try reflexivity. now rewrite schildren_fix.
 Qed.
 
 Lemma walk_eq cfg keep dex r t :
   walk cfg keep dex r t =
-  if negb (keep r (tree_is_dir t)) then ([], true) else
+  if negb (keep r (tree_is_dir (w_deref cfg) t)) then ([], true) else
   let '(e, kids) := node_entry (w_deref cfg) r t in
   match act_of cfg dex e with
   | (a, true) => match kids with
@@ -200,7 +200,8 @@ Proof.
       cbn [seq_walks].
       destruct (IH (TDir cs) eq_refl) as [_ Hcs]. specialize (Hcs cs eq_refl).
       now rewrite (seq_walks_process cfg keep dex true r cs Hcs).
-    + cbn [fst snd process]. destruct (act_of cfg dex (r, ELink text, tree_is_dir (TLink text res))) as [a [|]];
+    + cbn [fst snd process].
+      match goal with |- context [act_of cfg dex ?e] => destruct (act_of cfg dex e) as [a [|]] end;
         [cbn; now rewrite app_nil_r|reflexivity].
   - cbn [node_entry fst snd process]. destruct (act_of cfg dex (r, ESpecial ft, false)) as [a [|]]; [|reflexivity].
     cbn. now rewrite app_nil_r.
@@ -210,8 +211,8 @@ Qed.
 
 (* ---------------- entries: shape facts ---------------- *)
 Lemma node_entry_head deref r t :
-  fst (fst (fst (node_entry deref r t))) = r /\ snd (fst (node_entry deref r t)) = tree_is_dir t /\
-  (forall cs, snd (node_entry deref r t) = Some cs -> tree_is_dir t = true).
+  fst (fst (fst (node_entry deref r t))) = r /\ snd (fst (node_entry deref r t)) = tree_is_dir deref t /\
+  (forall cs, snd (node_entry deref r t) = Some cs -> tree_is_dir deref t = true).
 Proof.
   destruct t as [len|cs|text res|ft|ft].
   - cbn. repeat split. discriminate.
@@ -284,10 +285,10 @@ Lemma sel_filter_node keep deref r t :
 Proof.
   intros H. rewrite sel_entries_eq, entries_eq. cbn [filter].
   destruct (node_entry_head deref r t) as (Hr & Hd & Hkids).
-  assert (kept_from keep r (fst (node_entry deref r t)) = keep r (tree_is_dir t)) as Hhead.
+  assert (kept_from keep r (fst (node_entry deref r t)) = keep r (tree_is_dir deref t)) as Hhead.
   { destruct (fst (node_entry deref r t)) as [[q k] d]. cbn [fst snd] in Hr, Hd. subst q d.
     unfold kept_from. rewrite skipn_all. reflexivity. }
-  rewrite Hhead. destruct (keep r (tree_is_dir t)) eqn:Ek; cbn [negb].
+  rewrite Hhead. destruct (keep r (tree_is_dir deref t)) eqn:Ek; cbn [negb].
   - f_equal. destruct (snd (node_entry deref r t)) as [cs|] eqn:Ekids; [|reflexivity].
     apply H; [reflexivity|]. rewrite (Hkids cs eq_refl) in Ek. exact Ek.
   - destruct (snd (node_entry deref r t)) as [cs|] eqn:Ekids; [|reflexivity].
@@ -740,7 +741,7 @@ Qed.
    that one link, or of the no-clobber refusal — nothing is looked at, created or written below it, whatever the link
    designates *)
 Theorem link_operand_is_one_action : forall cfg keep dexists text res,
-  w_deref cfg = false -> keep [] (tree_is_dir (TLink text res)) = true ->
+  w_deref cfg = false -> keep [] (tree_is_dir false (TLink text res)) = true ->
   walk cfg keep dexists [] (TLink text res) =
     if w_no_clobber cfg && dexists [] then ([WErr 1 []], false) else ([WLink [] text], true).
-Proof. intros cfg keep dexists text res Hd Hk. cbn [walk]. rewrite Hk, Hd. reflexivity. Qed.
+Proof. intros cfg keep dexists text res Hd Hk. cbn [walk]. rewrite Hd, Hk. reflexivity. Qed.
